@@ -62,6 +62,7 @@ func c11L1(r *Run, rep *core.Report) {
 			cf := coreFlow(r, mm, sp)
 			rep.Spec(cf.Name)
 			co, coKnown := modeFlag(mm, sp, 1)
+			lie, lieKnown := modeFlag(mm, sp, 0)
 			worst := map[*ssa.Return]string{}
 			cls := map[*ssa.Return]string{}
 			var order []*ssa.Return
@@ -104,6 +105,8 @@ func c11L1(r *Run, rep *core.Report) {
 				cls[ex.Ret] = class
 				msg := ""
 				switch {
+				case lieKnown && lie && ex.S.Loaded == 1:
+					msg = fmt.Sprintf("in the load-if-exists mode a call that finds the key must return the stored value without calling the function or writing (class %s reached): a get-or-create that lost the race overwrites the winner's value", class)
 				case class == "?" || class == "unclassified":
 					msg = fmt.Sprintf("return cannot be classified (calls=%d loaded=%d del=%d): the result does not follow from a single user-function outcome", ex.S.Calls, ex.S.Loaded, ex.S.Del)
 				case !strings.Contains("|"+want0+"|", "|"+ex.Ret0+"|"):
